@@ -172,7 +172,16 @@ def r05_3(chk):
     chk.floor("R05.3", 6)
 
 
+def r05_4(chk):
+    """n is Infos.n of the snapshot's CURRENT elements: `.infos` is rebuilt per access and Infos' own memos are per object."""
+    from ..ownership import fresh_infos, memo_census
+    fresh_infos(chk, "R05.4")
+    memo_census(chk, "R05.4", only={"beyond/orbits/statevector.py::Infos.kep", "beyond/orbits/statevector.py::Infos.sphe", "beyond/orbits/statevector.py::StateVector.infos"})
+    chk.floor("R05.4", 3)
+
+
 def run(chk):
+    chk.rule("R05.4", "the mean motion is derived from the snapshot's current elements (no stale cache of derived quantities)")
     chk.rule("R05.1", "write set of the analytical propagators")
     chk.rule("R05.2", "ΔM = n·Δt and the first-order secular J2 rates (term algebra)")
     chk.rule("R05.3", "initial orbit never written; fresh cartesian result; timedelta relative to the epoch")
@@ -180,6 +189,7 @@ def run(chk):
     chk.guard(r05_1, chk, ft)
     chk.guard(r05_2, chk)
     chk.guard(r05_3, chk)
+    chk.guard(r05_4, chk)
     chk.assume("first-order secular J2 rates: dΩ = −3/2 n J2 (Re/p)² cos i, dω = 3/4 n J2 (Re/p)² (4 − 5 sin²i), "
                "dM − n = 3/4 n J2 (Re/p)² √(1−e²) (2 − 3 sin²i)")
     chk.assume("C01 (R01.1, R01.12) for the element order of keplerian_mean and Infos.n")
